@@ -100,6 +100,16 @@ fn is_ambiguous(s: &str) -> bool {
         return true;
     }
 
+    // Spellings without the leading dot that the float reader (it delegates to
+    // `str::parse::<f64>`) still accepts: [+-]?(nan|inf|infinity), any letter case.
+    let unsigned = s.strip_prefix(['+', '-']).unwrap_or(s);
+    if unsigned.eq_ignore_ascii_case("nan")
+        || unsigned.eq_ignore_ascii_case("inf")
+        || unsigned.eq_ignore_ascii_case("infinity")
+    {
+        return true;
+    }
+
     false
 }
 
